@@ -61,6 +61,7 @@ var c04Queries = []string{
 	`{ echo(i:1, s:"k") ... @skip(if:true) { x1 leafy { sNN } } ... @include(if:true) { x2 } a { ... on A @skip(if:true) { aOnly } ... on Node @include(if:true) { id } items(n:2) { n } } }`,
 	`{ nodes(n:3) { meta { s } ... on A { meta { i } } ... on C { meta { f sNN } } } a { ...M } c { ...M } b { ...M } } fragment M on Node { meta { s } ... on A { meta { i } } ... on C { meta { b } } }`,
 	`{ nodes(n:3) { id ... on U { __typename ... on A { aOnly } } ... on Solo { ... on B { bOnly } } } node(as:"C") { ... on U { __typename ... on A { name } } id } u { ... on Node { id ... on Solo { __typename } } } x1 }`,
+	`query($no:Boolean = false, $yes:Boolean = true){ x1 @skip(if:$yes) x1 a @include(if:$no) { name } a { id leafy { s @skip(if:$yes) s sNN } } ...G @skip(if:$yes) ...G ... @include(if:$no) { ...H } ...H } fragment G on Query { x2 leafy { s } } fragment H on Query { x3 leafy { sNN } }`,
 	`mutation { m1(v:1) { id nn { sNN } } s1(v:2) m2(v:3) { nodes(n:2) { id } } }`,
 	`mutation { deep { dNN { vNN } v } node(as:"B") { id ... on B { nn { s } } } s2(v:1) }`,
 }
